@@ -51,9 +51,15 @@ def jobs(tier):
             for cpath in ("root", "parent"):
                 out.append(("v%d.%s.P16384.%s.ref" % (version, shape, cpath), "job_recheck",
                             dict(prop="C05", version=version, shape=shape, P=16384, K=2, dmg=["intact", "intact"], cpath=cpath, source="ref")))
-    out.append(("v2.single.P16384.root.ref-nolength", "job_recheck",
-                dict(prop="C05", version=2, shape="single", P=16384, K=3, dmg=["intact"], cpath="root", source="ref",
-                     v2_single_length=False)))
+    for cpath in ("root", "parent"):
+        out.append(("v2.single.P16384.%s.ref-nolength" % cpath, "job_recheck",
+                    dict(prop="C05", version=2, shape="single", P=16384, K=3, dmg=["intact"], cpath=cpath, source="ref",
+                         v2_single_length=False)))
+    if q:
+        for version in (1, 2, 3):
+            for cpath in ("root", "parent"):
+                out.append(("v%d.order2.P16384.%s.own" % (version, cpath), "job_recheck",
+                            dict(prop="C05", version=version, shape="order2", P=16384, K=2, dmg=["intact", "intact"], cpath=cpath, source="own")))
     return out
 
 
